@@ -397,10 +397,10 @@ class Image:
         # Auxiliary routine for slicing images
         def slice_image(im: Image) -> list[np.ndarray]:
             if im.series:
-                slices = [
-                    im.img[..., i] if im.scalar else im.img[..., i, :]
-                    for i in range(im.time_num)
-                ]
+                # NOTE: The time axis directly follows the spatial axes, for any
+                # number of trailing data axes (scalar, vector, tensor data).
+                time_axis = (slice(None),) * im.space_dim
+                slices = [im.img[time_axis + (i,)] for i in range(im.time_num)]
             else:
                 slices = [im.img]
             return slices
@@ -584,12 +584,10 @@ class Image:
         if not self.series:
             raise ValueError
 
-        # Fetch data and return corresponding datatype
-        if self.scalar:
-            img = self.img[..., time_index]
-
-        else:
-            img = self.img[..., time_index, :]
+        # Fetch data and return corresponding datatype. NOTE: The time axis directly
+        # follows the spatial axes, for any number of trailing data axes (indexing it
+        # from the end as [..., time_index, :] addresses a data axis of tensor data).
+        img = self.img[(slice(None),) * self.space_dim + (time_index,)]
 
         # Fetch and update metadata
         metadata = self.metadata()
@@ -625,10 +623,8 @@ class Image:
             raise ValueError("indices needs to be a slice")
 
         # ! ---- Adapt data
-        if self.scalar:
-            img = self.img[..., indices]
-        else:
-            img = self.img[..., indices, :]
+        # NOTE: The time axis directly follows the spatial axes (see time_slice).
+        img = self.img[(slice(None),) * self.space_dim + (indices,)]
 
         # ! ---- Adapt metadata
         metadata = self.metadata()
